@@ -86,8 +86,10 @@ def build(rng, entries, schema="'1.2'", order="schema-first", indent="  "):
     m = Manifest()
     def put_schema():
         if schema is not None:
-            m.lines.append("schema: " + schema)
+            first, *more = ("schema: " + schema).split("\n")
+            m.lines.append(first)
             m.schema = (len(m.lines) - 1, len("schema: "))
+            m.lines += more              # a block scalar: its text stands on the following lines
     if order == "schema-first":
         put_schema()
     m.lines.append("contents:")
@@ -269,7 +271,9 @@ def randoms(ctx, n):
                 if rng.random() < 0.7:
                     s += ".fga"
                 entries.append(s)
-        schema = rng.choice(["'1.2'", "'1.2'", "'1.2'", "\"1.2\"", "1.2", "'1.1'", "12", None, "[a]", "!!str 1.2"])
+        # (the version padded with white space - quoted, or a block scalar that keeps its line break - is not the version)
+        schema = rng.choice(["'1.2'", "'1.2'", "'1.2'", "\"1.2\"", "1.2", "'1.1'", "12", None, "[a]", "!!str 1.2",
+                             "'1.2 '", "' 1.2'", "\"1.2 \"", "\"1.2\\n\"", "|\n  1.2", "|+\n  1.2", ">\n  1.2", "|-\n  1.2"])
         m = build(rng, entries, schema=schema, order=rng.choice(["schema-first", "schema-last"]),
                   indent=rng.choice(["  ", "", "    "]))
         if rng.random() < 0.05:
